@@ -36,10 +36,18 @@ func (g *GenesisState) Validate() error {
 		return core.ErrNilPointer.Wrap("executor genesis state")
 	}
 
+	// NOTE: repeated entries are rejected because the genesis initialization
+	// fails on an entry which is already paused.
+	visitedIDs := make(map[core.ActionID]struct{})
 	for _, id := range g.PausedActionIds {
 		if err := id.Validate(); err != nil {
 			return err
 		}
+
+		if _, found := visitedIDs[id]; found {
+			return core.ErrAlreadySet.Wrapf("repeated paused action ID %s", id)
+		}
+		visitedIDs[id] = struct{}{}
 	}
 
 	return nil
